@@ -135,14 +135,32 @@ def err_kind(e):
 ERR_COQ = {"assert": "(Err (EAssert 0))", "value": "(Err EValue)", "other": "(Err EOther)"}
 
 
-def call_real(src, scn, rr=None, via_to_crs=False):
+DOC_DEFAULTS = {"resolution": "auto", "shape": None, "tight": False, "anchor": ["str", "default"], "tol": 0.01, "rr": None}
+
+
+def call_real(src, scn, rr=None, via_to_crs=False, xx=None):
+    """entry points: the function compute_output_geobox (every keyword spelled out), the method GeoBox.to_crs and the
+    xarray accessor .odc.output_geobox (keywords at their documented default are NOT passed, so that the entry
+    point's own defaults are what is exercised)"""
     from odc.geo.overlap import compute_output_geobox
 
     kw = dict(resolution=py_resolution(scn["resolution"]), shape=py_shape(scn["shape"]), tight=scn["tight"],
               anchor=py_anchor(scn["anchor"]), tol=scn["tol"], round_resolution=rr)
-    if via_to_crs:
+    via = "method" if via_to_crs else scn.get("via", "function")
+    if via == "function":
+        return compute_output_geobox(src, scn["crs"], **kw)
+    for k, name in (("resolution", "resolution"), ("shape", "shape"), ("tight", "tight"), ("anchor", "anchor"), ("tol", "tol")):
+        if scn[k] == DOC_DEFAULTS[k]:
+            kw.pop(name)
+    if rr is None:
+        kw.pop("round_resolution")
+    if via == "method":
         return src.to_crs(scn["crs"], **kw)
-    return compute_output_geobox(src, scn["crs"], **kw)
+    if xx is None:
+        from odc.geo.xr import xr_zeros
+
+        xx = xr_zeros(src, dtype="uint8")
+    return xx.odc.output_geobox(scn["crs"], **kw)
 
 
 # ------------------------------------------------------------------ CRS / units registry
@@ -957,9 +975,16 @@ def check_scenario(src_s, scn, k_edge=400, k_in=9, src_obj=None):
     if isinstance(rr, str):
         hook = Hook(rr)
         rr = hook
+    xx = None
+    if scn.get("via") == "accessor":
+        # the raster is what the user holds: the source grid is the one the accessor recovers from its coordinates
+        from odc.geo.xr import xr_zeros
+
+        xx = xr_zeros(src, dtype="uint8")
+        src = xx.odc.geobox
     rec = Recorder(None)
     with rec:
-        dst = call_real(src, scn, rr=rr)
+        dst = call_real(src, scn, rr=rr, xx=xx)
     fin = rec.final()
     is_utm = isinstance(scn["crs"], str) and scn["crs"].lower().startswith("utm")
     defaults = (scn["resolution"] in ("auto", "same") and scn["shape"] is None and scn["anchor"] == ["str", "default"])
@@ -968,13 +993,20 @@ def check_scenario(src_s, scn, k_edge=400, k_in=9, src_obj=None):
         from odc.geo import CRS
 
         same_crs = pyproj_same_crs(src.crs, scn["crs"])
-        if same_crs and defaults and dst is not src:
-            fails.append(("identity", "same CRS and default options did not return the source object"))
-        if dst is src:
+        if scn.get("via") == "accessor":      # the accessor rebuilds its GeoBox from the coordinates: judge by value
+            same_obj = (tuple(dst.shape) == tuple(src.shape) and tuple(dst.affine[:6]) == tuple(src.affine[:6])
+                        and pyproj_same_crs(dst.crs, str(src.crs)))
+        else:
+            same_obj = dst is src
+        if same_crs and defaults and not same_obj:
+            fails.append(("identity", f"same CRS and default options ({scn.get('via', 'function')} form) did not return the source "
+                                      f"grid: got shape {tuple(dst.shape)} origin ({dst.affine.c}, {dst.affine.f}), source shape "
+                                      f"{tuple(src.shape)} origin ({src.affine.c}, {src.affine.f})"))
+        if same_obj:
             if not same_crs:
                 fails.append(("identity", f"source object (CRS {str(src.crs)[:60]}) returned although the requested CRS "
                                           f"{scn['crs']} is a different one (pyproj equality): result is not in the requested CRS"))
-            elif not defaults:
+            elif not defaults and scn.get("via") != "accessor":
                 fails.append(("identity", "source object returned for a non-default request"))
             return fails, facts
     elif dst is src:
@@ -1182,6 +1214,13 @@ def search_sources(tier):
         ["utm", "EPSG:32755", "EPSG:3577"])
     add("midedge-cm-4326-1deg", GeoBox.from_bbox([14.4, 47.0, 15.7, 48.1], "EPSG:4326", resolution=0.0002),
         ["utm", "EPSG:32633", "EPSG:3035"])
+    # polar stereographic CRSs (both axes point north / south) are metre based: metre -> metre keeps the resolution
+    add("polar-antarctic", GeoBox.from_bbox([1900000, 400000, 2100000, 560000], "EPSG:3031", resolution=100),
+        ["EPSG:3857", "EPSG:3976", "EPSG:6933", "EPSG:4326", "EPSG:3031"])
+    add("polar-arctic", GeoBox.from_bbox([-400000, -2600000, -250000, -2480000], "EPSG:3413", resolution=50),
+        ["EPSG:3995", "EPSG:3857", "EPSG:32622", "EPSG:3413"])
+    add("mercator-to-polar", GeoBox.from_bbox([8000000, -11200000, 8400000, -10800000], "EPSG:3857", resolution=200),
+        ["EPSG:3031", "EPSG:3976"])
     # no EPSG code on source or target
     add("modis-sinu", GeoBox(wh_(1200, 1200), Affine(463.3127165, 0, 12500000.0, 0, -463.3127165, -2500000.0), SINU),
         [AEA_CUSTOM, SINU_RESPELLED, LAEA_CUSTOM, "EPSG:4326", "EPSG:3577"])
@@ -1390,6 +1429,7 @@ def search(out, tier):
                 return
         out.count("search:" + label.split("-")[0])
         out.count("search-target:" + str(scn["crs"]).upper())
+        out.count("entry:" + scn.get("via", "function"))
         out.case(("search", src_s, scn), True)
         if "enclosure_margin_px" in facts and not isinstance(scn["shape"], list):
             margins.append((facts["enclosure_margin_px"] + scn["tol"], label, scn["crs"]))
@@ -1432,6 +1472,22 @@ def search(out, tier):
                         continue
                     run(label, src_s, scenario(crs, r, tol=rng.choice([0.01, 0.0])))
                     run(label, src_s, scenario(crs, [r, -r / 2], anchor=["str", "center"]))
+    # alternative entry points with THEIR OWN defaults (keywords at the documented default are not passed): the method
+    # GeoBox.to_crs and the xarray accessor .odc.output_geobox must behave like the function
+    from odc.geo import CRS as _CRS
+
+    for label, src_s, targets in srcs:
+        own = str(mk_src(src_s).crs)
+        ny_, nx_ = src_s["shape"]
+        a_ = src_s["affine"]
+        forms = ["method"]
+        if ny_ * nx_ <= 4_000_000 and a_[1] == 0 and a_[3] == 0 and a_[0] > 0 and a_[4] < 0:
+            forms.append("accessor")
+        others = [c for c in targets if not c.lower().startswith("utm") and not pyproj_same_crs(_CRS(own), c)]
+        for via in forms:
+            for crs, o in [(own, dict()), (own, dict(resolution="same")), (own, dict(tight=True)), (own, dict(tol=0.0))] + \
+                    [(c, dict()) for c in others[:1]] + [(c, dict(anchor=["str", "center"])) for c in others[1:2]]:
+                run(label + "-" + via, src_s, dict(scenario(crs, **o), via=via), k_edge=1500 if label.startswith(("continent", "world")) else 400)
     # every resolution mode x tuple / single-number shape x tight: a shape request takes precedence over resolution=
     sweep = {"s2-tile-utm", "small-4326", "albers-tile", "rot30-utm", "modis-sinu", "non-square", "south-up", "flipx"}
     for label, src_s, targets in srcs:
